@@ -9,11 +9,13 @@ CONSTANTS
   FinishFull = TRUE
   With256 = FALSE
   Targets = {}
+  SharedBuf = FALSE
 INIT Init
 NEXT Next
 INVARIANT EncodeDecode
 INVARIANT LocaInv
 INVARIANT RoundTrip
 INVARIANT FixInv
+INVARIANT HistInv
 INVARIANT EmitOps
 CHECK_DEADLOCK FALSE
